@@ -478,6 +478,9 @@ fn sweep(run: &Run, total: &Mutex<Stats>, part: &'static str, menu: &[Def], k: u
                 }
             }
             let defs = seq_at(menu, k, idx);
+            if part == "len134" && defs.iter().all(|d| d.len() == 1) {
+                continue; // already enumerated by seq1 / seq2
+            }
             check_cmap(run, part, &defs, how, &mut st);
         }
         total.lock().unwrap().merge(st);
@@ -558,11 +561,15 @@ fn main() {
          1-byte codes 10..17, 2-byte codes 0010..0017 and 00FE..0101), enumerated by index without repetition. Each CMap is rendered \
          as CMap text by the choice recorder: the all-zero vector (ISO 32000 template, one section per definition) plus every vector \
          with <=1 (quick) / <=2 (thorough, sequences of <=2 definitions) non-zero choices; sequences of 3 definitions get the default \
-         spelling and every combination of the section-merge choices. Each rendering is parsed with get_font_encoding and every mapped \
-         code and every ordered pair of mapped codes is decoded with decode_text. A case is a (definition sequence, choice vector) \
-         with conservative choices only; it is non-trivial when two of its definitions of the same code length overlap or touch. \
-         Cases are distinct by construction (distinct index / distinct vector; every deviation changes the text because choice sites \
-         only exist where they apply). Liberal renderings are counted separately and are not in distinct_nontrivial.",
+         spelling and every combination of the section-merge choices (quick: only the residue class of 3-sequences named in seq3_slice, \
+         a supplementary slice). Spot checks: sequences of <=2 definitions over the 1-byte menu moved to 3- and 4-byte codes and mixed with \
+         the 1-byte originals (len134), and hand-written CMaps at both ends of the code space of every length (edges, default spelling). \
+         Each rendering is parsed with get_font_encoding and every mapped code and every ordered pair of mapped codes is decoded with \
+         decode_text (CMaps with more than 24 mapped codes, which only occur in edges: all codes alone, pairs over 8 of them). \
+         A case is a (definition sequence, choice vector) with conservative choices only; it is non-trivial when two of its definitions \
+         of the same code length overlap or touch. Cases are distinct by construction (distinct index / distinct vector; every deviation \
+         changes the text because choice sites only exist where they apply). Liberal renderings are counted separately (liberal*) and \
+         are not in distinct_nontrivial.",
     );
     run.assume("reference semantics in harness/src/refcmap.rs (last covering definition wins; range offset added to the last UTF-16 unit; array indexed by offset; UTF-16 decoding) is the property's statement");
     run.assume("domain: well-formed CMaps only - array targets have exactly hi-lo+1 elements, incrementing ranges never carry out of the low byte of the last unit, inputs are strings of mapped codes, code sets are prefix-free (1-byte codes 10..17 never start a longer mapped code)");
@@ -582,14 +589,20 @@ fn main() {
         sweep(&run, &total, "seq3_slice", menu, 3, Explore::MergeOnly, Some((m3, run.seed % m3)));
         run.set("seq3_slice", json!(format!("index mod {} == {} (rotates with VERIF_SEED; supplementary to the quick bound)", m3, run.seed % m3)));
     }
-    // 3. code lengths 3 and 4: the 1-byte menu moved to 3- and 4-byte codes
-    let one: Vec<Def> = menu[parts.one_byte.clone()].to_vec();
+    // 3. code lengths 3 and 4 (spot check): the 1-byte menu moved to 3-byte codes 010010.. and 4-byte
+    //    codes FFFFFF10.., in sequences that also mix them with each other and with the 1-byte originals
+    //    (prefix-free: no mapped 1-byte code is 01 or FF, no 3-byte code starts a 4-byte one)
+    let mut m134: Vec<Def> = menu[parts.one_byte.clone()].to_vec();
     for (len, base) in [(3u8, 0x0100_00u32), (4u8, 0xFFFF_FF00u32)] {
-        let moved: Vec<Def> = one.iter().map(|d| rc::transpose(d, len, base)).collect();
-        let part = if len == 3 { "len3" } else { "len4" };
-        sweep(&run, &total, part, &moved, 1, Explore::Upto(1), None);
-        sweep(&run, &total, part, &moved, 2, Explore::Upto(if t { 1 } else { 0 }), None);
+        let moved: Vec<Def> = menu[parts.one_byte.clone()].iter().map(|d| rc::transpose(d, len, base)).collect();
+        m134.extend(moved);
     }
+    if !rc::prefix_free(&rc::mapped_codes(&m134)) || !rc::prefix_free(&rc::mapped_codes(menu)) {
+        eprintln!("MACHINERY: menu code sets are not prefix-free");
+        std::process::exit(2);
+    }
+    sweep(&run, &total, "len134", &m134, 1, Explore::Upto(d), None);
+    sweep(&run, &total, "len134", &m134, 2, Explore::Upto(if t { 1 } else { 0 }), None);
     // 4. edges of the code space
     let edges = edge_cmaps();
     util::par_for(edges.len(), |i| {
